@@ -62,13 +62,14 @@ type QCall struct {
 }
 
 type GW struct {
-	G     *pebbles.Gateway
-	Net   *fakesvc.Net
-	W     *world.World
-	Cfg   Config
-	mu    sync.Mutex
-	Plans []*PlanRec
-	Calls []QCall
+	G      *pebbles.Gateway
+	Net    *fakesvc.Net
+	W      *world.World
+	Cfg    Config
+	mu     sync.Mutex
+	Plans  []*PlanRec
+	Calls  []QCall
+	cached *recPlanner
 }
 
 type sdlIntrospector struct{ w *world.World }
@@ -210,8 +211,10 @@ func New(w *world.World, cfg Config) (*GW, error) {
 		var sp planner.SequentialPlanner
 		inner = sp
 	}
+	rp := &recPlanner{inner: inner, g: g}
+	g.cached = rp
 	opts := []pebbles.GatewayOption{
-		pebbles.WithPlanner(&recPlanner{inner: inner, g: g}),
+		pebbles.WithPlanner(rp),
 		pebbles.WithQueryerFactory(func(ctx *planner.PlanningContext, url string) queryer.Queryer {
 			return &recQueryer{inner: queryer.NewMultiOpQueryer(url, cfg.BatchSize).WithHTTPClient(client), g: g}
 		}),
@@ -250,6 +253,12 @@ func New(w *world.World, cfg Config) (*GW, error) {
 	}
 	g.G = gwy
 	return g, nil
+}
+
+// SetCachedPlanner replaces the planner of a gateway built with Config.Cached by a caching planner
+// with exactly this TTL (histories that straddle expiry need TTLs of a few milliseconds).
+func (g *GW) SetCachedPlanner(ttl time.Duration) {
+	g.cached.inner = planner.NewCachedPlanner(ttl)
 }
 
 func (g *GW) ResetLogs() {
